@@ -121,7 +121,7 @@ PROPS = {
                  "executed operation by operation against Mercury over simulated etcd and Rediaron over simulated Redis in one bubble; after every operation both stores are read back completely through the API; the comparison of a history stops at the first divergence that changes state; "
                  "non-trivial = at least one operation succeeded; distinct = distinct hash of the sequence of read-back states",
                  probes=["workload_added", "status_set", "advance", "list_checked"]),
-    "C24": small("store", "as C23, with three name universes chosen by seed: (half) names that are prefixes of each other or contain '_' (a, ab, a_b, a_b_c / b, bc, b-c / n, n1, n10, n1x), (quarter) names containing '/', (quarter) names containing glob characters; no in-progress markers, many list queries with every filter combination; "
+    "C24": small("store", "as C23, with three name universes chosen by seed: (half) names that are prefixes of each other or contain '_' (a, ab, a_b, a_b_c / b, bc, b-c / n, n1, n10, n1x), (quarter) names containing '/', (quarter) names containing glob characters; in-progress markers come and go (the count of a pair without a marker of its own must still equal its recorded workloads), many list queries with every filter combination; "
                  "after every operation GetDeployStatus of every (app, entry) in use and every ListWorkloads query are compared with the set of workloads created under exactly those names, and every workload name is parsed back; "
                  "non-trivial = at least one operation succeeded; distinct = distinct read-back hash",
                  probes=["workload_added", "list_checked", "deploy_count_checked", "status_stream_opened", "status_stream_event_checked"]),
@@ -137,10 +137,10 @@ PROPS = {
                  "non-trivial = every case; distinct = distinct (case, call log) hash",
                  quick={"seconds": 20, "runs": 1512}, thorough={"seconds": 60, "runs": 15120}, exhaustive_if_runs=756,
                  assumptions=["steps are simulated tasks parked at the scheduler; the canceller acts at the named point"]),
-    "C18": small("lock", "one evaluation = 2-4 contenders, each with its own client and a fresh lock object per acquisition (as the cluster creates them), performing 4-11 lock / try-lock + hold + unlock rounds on one key with seeded hold times (some longer than the TTL, kept alive by keep-alives) and gaps, under fifo/random/sticky/PCT schedules; "
+    "C18": small("lock", "one evaluation = 2-4 contenders, each with its own client and a fresh lock object per acquisition (as the cluster creates them), performing 4-11 lock / try-lock + hold + unlock rounds on one key with seeded hold times (some longer than the TTL, kept alive by keep-alives) and gaps, under fifo/random/sticky/PCT schedules; a quarter of the histories are convoys (three contenders re-queueing 14-23 times, every wait inside its timeout); "
                  "non-trivial = at least one acquisition; distinct = distinct seam-trace hash",
                  probes=["acquired", "acquired_after_waiting", "trylock_refused"]),
-    "C19": small("lock", "as C18, and in a third of the rounds the holder loses its lock in the middle of a long hold: its lease is revoked at the server, or its client is cut off for 1.5 TTL so that the lease expires; the time between the loss at the server and the cancellation of the lock context is measured on the virtual clock; "
+    "C19": small("lock", "as C18, and in a third of the rounds the holder loses its lock in the middle of a long hold: its lease is revoked at the server, or its client is cut off for 1.5 TTL so that the lease expires; the time between the loss at the server and the cancellation of the lock context is measured on the virtual clock; a fifth of the histories run real Calcium operations instead (a stop under a workload lock with a slow engine; a capacity query under three pod locks with a slow second plugin) and revoke one lock's lease; "
                  "non-trivial = at least one acquisition; distinct = distinct seam-trace hash",
                  probes=["loss_observed", "lease_revoked", "holder_paused", "entered_while_lost_holder_untold"], fault_probes=["lease_revoked", "holder_paused"]),
     "C26": small("eph", "one evaluation = 2-3 registrants (own clients) registering one service key with StartEphemeral (heartbeat 6-12 s), holding, and deregistering, 3-8 rounds; in half of the rounds the registrant is cut off for 1.5 TTL or its lease is revoked at the server; ownership ground truth is read from the store; "
